@@ -1,69 +1,142 @@
-"""C18 - questions return only valid answers, count attempts exactly and terminate."""
-import itertools
+"""C18 - questions return only valid answers, count attempts exactly and terminate.
+
+Observation per ask(): how it ended (answer / failure with the exception's class and message / gave up at end of input),
+the number of lines consumed from the input stream, and the WHOLE text on the error output (also on the standard output,
+which must stay empty).  The model (Model/Question.v for the outcome, Model/QuestionText.v for the text; driver entry
+run_C18T) produces the same observation; the oracle states the property on it with its own, independent reading of
+"valid entry" (spec_entry below).
+"""
+import itertools, re
 from hutil import S, unS
 
 MODEL = "C18"
+MODEL_ENTRY = "run_C18T"        # the driver's entry for C18 (Model/QuestionText.v): run_C18's outcome and, next to it, the text written
 PROP_FILES = ["Props/C18.v"]
 CASE_TIMEOUT = 5
 RULE = ("choice lists (1-5 entries incl. numeric-looking, duplicated, spaced and case-differing entries) x single/multi-select x "
-        "defaults x attempt limits {unlimited,1,2,3} x all answer scripts up to 3 lines (quick) / 4 (thorough) over an adversarial "
-        "answer alphabet, each ending in end of input; confirmation over patterns x answers x defaults; interactive on/off; "
+        "defaults (none, every index of the first three, two orders of a pair when multi-select) x attempt limits {unlimited,1,2,3} x "
+        "ALL answer scripts up to 2 lines (quick) / 3 lines (thorough) over an adversarial answer alphabet (markup-like text "
+        "included), PLUS all scripts of 3 (quick) / 4 (thorough) lines over a 4-entry alphabet {invalid name, out-of-range index, "
+        "valid index, empty line} - enough to use up every limit - plus random 4-line scripts over the whole alphabet, each ending "
+        "in end of input; the same question object asked twice; non-interactive inputs WITH pending lines; confirmation over "
+        "patterns x answers x defaults; the plain Question with and without a validator; "
         "non-trivial = a script with >= 1 invalid entry or a multi-select answer; distinct by case")
 TRUSTED = ["the terminal auto-completion path (stty available) is outside the model: Question._has_stty_available is forced to False "
-           "in the harness (it is False anyway without a terminal; forcing it avoids spawning stty for every prompt)"]
-ASSUMPTIONS = ["defaults are valid indexes; confirmation patterns are case-insensitive prefixes"]
+           "in the harness (it is False anyway without a terminal; forcing it avoids spawning stty for every prompt); hidden questions "
+           "(getpass) are not asked",
+           "int() of a typed index is modelled for ASCII digits (Model/Conv.v int_of_str); the answer alphabet has no other digits"]
+ASSUMPTIONS = ["defaults are valid indexes; choices hold no markup; confirmation patterns are case-insensitive prefixes",
+               "an empty entry of a choice question WITHOUT default is an invalid entry like any other (one attempt, one error line); "
+               "the error it prints is the text of an AttributeError ('NoneType' object has no attribute 'replace') - the property "
+               "says nothing about the wording, the model reproduces that one text for that one situation and any other unexpected "
+               "exception type is a failure of its own class"]
 
 CHOICE_LISTS = [["Superman", "Batman", "Spiderman"], ["a"], ["10", "20", "1"], ["dup", "x", "dup"], ["Iron Man", "iron man", "Thor"],
                 ["1", "0"], ["yes", "no", "maybe", "never", "ok"]]
 ANSWERS = ["", " ", "0", "1", "2", "7", "-1", "+1", "1_0", " 1 ", "x", "dup", "Batman", "batman", "Iron Man", "IronMan", "0,1", "0, 2",
-           "Batman,Superman", "1,,2", ",", "a", "10", "yes,no", "0,x", "1,1"]
+           "Batman,Superman", "1,,2", ",", "a", "10", "yes,no", "0,x", "1,1", "</b>", "<b>", "a\\", "2,1,0"]
+BUDGET = ["x", "7", "0", ""]        # invalid name, out-of-range index, valid index, empty line (the default, or invalid without one)
+QTEXT = "Pick"
+PLAIN_ACCEPT = ["ok", "dflt"]
+PLAIN_ANSWERS = ["", " ", "ok", "no", "x y", "</b>"]
+
+
+def _defaults(cs, multi):
+    ds = [None, "0"] + (["1"] if len(cs) > 1 else []) + (["2"] if len(cs) > 2 else [])
+    if multi and len(cs) > 1:
+        ds += ["0,1", "1,0"]
+    return ds
 
 
 def gen(rng, tier, info):
     depth = {"quick": 2, "thorough": 3, "search": 2}[tier]
     cases = []
+    n_budget = n_nonint = 0
     for ci, cs in enumerate(CHOICE_LISTS):
-        defaults = [None, "0"] + (["0,1"] if len(cs) > 1 else [])
         for multi in (0, 1):
-            for d in defaults:
-                if d == "0,1" and not multi:
-                    continue
+            for d in _defaults(cs, multi):
                 for att in (None, 1, 2, 3):
-                    cases.append({"k": 0, "inter": 0, "cs": ci, "multi": multi, "d": d, "att": att, "script": []})
+                    base = {"k": 0, "cs": ci, "multi": multi, "d": d, "att": att}
+                    # non-interactive: lines are pending on the input, none may be read and nothing may be written
+                    for sc in ([], ["0"], ["x"], ["x", "0", "1"], ["", "", "", ""]):
+                        cases.append(dict(base, inter=0, script=sc))
+                        n_nonint += 1
                     for k in range(0, depth + 1):
                         pool = ANSWERS if k <= 1 else ANSWERS[::2] + ["Batman"]
-                        if k == depth and tier == "quick":
-                            pool = ["", "0", "x", "dup", "Batman", "0,1", "7", "-1"]
+                        if k == depth and tier != "thorough":
+                            pool = ["", "0", "x", "dup", "Batman", "0,1", "7", "-1", "</b>"]
                         for seq in itertools.product(pool, repeat=k):
-                            cases.append({"k": 0, "inter": 1, "cs": ci, "multi": multi, "d": d, "att": att, "script": list(seq)})
+                            cases.append(dict(base, inter=1, script=list(seq)))
                             if k >= 1 and att is not None and len(seq) <= 2:
                                 # the same question object asked again afterwards
                                 for second in (["0"], ["x", "0"]):
-                                    cases.append({"k": 0, "inter": 1, "cs": ci, "multi": multi, "d": d, "att": att,
-                                                  "script": list(seq), "again": second})
+                                    cases.append(dict(base, inter=1, script=list(seq), again=second))
+                    # the attempt budget: every script of depth+1 lines over {invalid, invalid, valid, empty} - a limit of 3 is used
+                    # up by three invalid entries, and a fourth line must stay unread
+                    for seq in itertools.product(BUDGET, repeat=depth + 1):
+                        cases.append(dict(base, inter=1, script=list(seq)))
+                        n_budget += 1
+                    if tier != "thorough":
+                        cases.append(dict(base, inter=1, script=["x", "7", "x", "0"]))
+                        cases.append(dict(base, inter=1, script=["x", "x", "x", "x"]))
+                        n_budget += 2
     n_choice = len(cases)
+    for _ in range({"quick": 3000, "thorough": 30000, "search": 500}[tier]):
+        ci = rng.randrange(len(CHOICE_LISTS))
+        multi = rng.randrange(2)
+        cases.append({"k": 0, "cs": ci, "multi": multi, "d": rng.choice(_defaults(CHOICE_LISTS[ci], multi)), "att": rng.choice([None, 1, 2, 3]),
+                      "inter": 1, "script": [rng.choice(ANSWERS) for _ in range(rng.choice([3, 4, 4]))]})
+    n_rand = len(cases) - n_choice
+    n1 = len(cases)
     for inter in (0, 1):
         for d in (0, 1):
             for prefix in ("y", "j", "ok"):
-                for script in [[]] + [[a] for a in ["", " ", "y", "Y", "yes", "n", "no", "J", "ja", "okay", "OK", "o", " y ", "ny", "x"]]:
+                for script in [[]] + [[a] for a in ["", " ", "y", "Y", "yes", "n", "no", "J", "ja", "okay", "OK", "o", " y ", "ny", "x"]] + [["x", "y"]]:
                     cases.append({"k": 1, "inter": inter, "d": d, "prefix": prefix, "script": script})
+    n_conf = len(cases) - n1
+    n2 = len(cases)
+    for inter in (0, 1):
+        for d in (None, "dflt"):
+            for val, atts in ((0, [None]), (1, [None, 1, 2, 3])):
+                for att in atts:
+                    for k in range(0, 4):
+                        if not inter and k > 1:
+                            continue
+                        for seq in itertools.product(PLAIN_ANSWERS if k <= 2 else ["", "ok", "no"], repeat=k):
+                            cases.append({"k": 2, "inter": inter, "d": d, "val": val, "att": att, "script": list(seq)})
     info["exhaustive"] = True
-    info["distribution"] = {"choice_cases": n_choice, "confirmation_cases": len(cases) - n_choice, "answer_alphabet": len(ANSWERS)}
+    info["distribution"] = {"choice_cases": n_choice, "of_which_budget_scripts": n_budget, "of_which_non_interactive": n_nonint,
+                            "random_long_scripts": n_rand, "confirmation_cases": n_conf, "plain_question_cases": len(cases) - n2,
+                            "answer_alphabet": len(ANSWERS), "exhaustive_script_lines": depth, "budget_script_lines": depth + 1}
     return cases
+
+
+def _opt(x, f=lambda v: v):
+    return [] if x is None else [f(x)]
 
 
 def wire(c):
     if c["k"] == 0:
-        return [0, c["inter"], [S(x) for x in CHOICE_LISTS[c["cs"]]], c["multi"], [] if c["d"] is None else [S(c["d"])],
-                [] if c["att"] is None else [c["att"]], [[S(l) for l in sc] for sc in [c["script"]] + ([c["again"]] if "again" in c else [])]]
-    return [1, c["inter"], c["d"], S(c["prefix"]), [S(l) for l in c["script"]]]
+        return [10, S(QTEXT), c["inter"], [S(x) for x in CHOICE_LISTS[c["cs"]]], c["multi"], _opt(c["d"], S), _opt(c["att"]),
+                [[S(l) for l in sc] for sc in [c["script"]] + ([c["again"]] if "again" in c else [])]]
+    if c["k"] == 1:
+        return [11, S("Sure"), c["inter"], c["d"], S(c["prefix"]), [S(l) for l in c["script"]]]
+    return [12, S("Name"), c["inter"], _opt(c["d"], S), [[S(a) for a in PLAIN_ACCEPT]] if c["val"] else [], _opt(c["att"]),
+            [S(l) for l in c["script"]]]
 
 
 def describe(c):
     if c["k"] == 0:
-        return "ChoiceQuestion(%r, multi=%s, default=%r, attempts=%r) interactive=%s typed lines %r then end of input" % (
-            CHOICE_LISTS[c["cs"]], bool(c["multi"]), c["d"], c["att"], bool(c["inter"]), c["script"])
-    return "ConfirmationQuestion(default=%s, pattern=(?i)^%s) interactive=%s typed %r" % (bool(c["d"]), c["prefix"], bool(c["inter"]), c["script"])
+        return "ChoiceQuestion(%r, %r, default=%r) multi=%s attempts=%r interactive=%s typed lines %r then end of input%s" % (
+            QTEXT, CHOICE_LISTS[c["cs"]], c["d"], bool(c["multi"]), c["att"], bool(c["inter"]), c["script"],
+            (", then asked again with %r" % c["again"]) if "again" in c else "")
+    if c["k"] == 1:
+        return "ConfirmationQuestion('Sure', default=%s, pattern=(?i)^%s) interactive=%s typed %r" % (bool(c["d"]), c["prefix"], bool(c["inter"]), c["script"])
+    return "Question('Name', default=%r)%s attempts=%r interactive=%s typed %r" % (
+        c["d"], " with a validator accepting %r" % PLAIN_ACCEPT if c["val"] else "", c["att"], bool(c["inter"]), c["script"])
+
+
+WART = "'NoneType' object has no attribute 'replace'"
 
 
 def _ask(q, c, script):
@@ -80,48 +153,94 @@ def _ask(q, c, script):
             end = [0, [2]]
         elif isinstance(r, bool):
             end = [0, int(r)]
-        else:
+        elif isinstance(r, str):
             end = [0, [0, S(r)]]
+        else:
+            end = [3, S(type(r).__name__), S(repr(r))]
     except Exception as e:
         msg = str(e)
         if type(e).__name__ == "Aborted":
             end = [2]
-        elif "ambiguous" in msg:
-            end = [1, 1]
-        elif "is invalid" in msg:
-            end = [1, 0]
+        elif type(e) is ValueError:
+            end = [1, 1 if "ambiguous" in msg else 0, [S(msg)]]
+        elif type(e) is AttributeError and msg == WART:
+            end = [1, 2, [S(msg)]]          # the one known wart (ASSUMPTIONS): exactly this type and text
         else:
-            end = [1, 2]
+            end = [3, S(type(e).__name__), S(msg)]
     errtext = io.fetch_error()
     remaining = io.input.stream._stream.read()
     if isinstance(remaining, bytes):
         remaining = remaining.decode("utf-8")
     nread = len(script) - remaining.count("\n")
-    nerr = errtext.count("is invalid") + errtext.count("is ambiguous") + errtext.count("object has no attribute")
-    nprompt = errtext.count("Pick") if c["k"] == 0 else errtext.count("Sure")
-    if c["k"] == 0:
-        return [end, nread, nerr, nprompt, io.fetch_output()]
-    return [end, nread, io.fetch_output()]
+    return [end, nread, errtext, io.fetch_output()]
+
+
+def _validator(x):
+    if x not in PLAIN_ACCEPT:
+        raise ValueError("not ok: %s" % (x,))
+    return x
 
 
 def run_impl(c):
     from clikit.ui.components import ChoiceQuestion, ConfirmationQuestion, Question
     Question._has_stty_available = lambda self: False
     if c["k"] == 0:
-        q = ChoiceQuestion("Pick", list(CHOICE_LISTS[c["cs"]]), c["d"])
+        q = ChoiceQuestion(QTEXT, list(CHOICE_LISTS[c["cs"]]), c["d"])
         if c["multi"]:
             q.set_multi_select(True)
         if c["att"] is not None:
             q.set_max_attempts(c["att"])
         return [_ask(q, c, sc) for sc in [c["script"]] + ([c["again"]] if "again" in c else [])]
-    q = ConfirmationQuestion("Sure", bool(c["d"]), "(?i)^" + c["prefix"])
+    if c["k"] == 1:
+        q = ConfirmationQuestion("Sure", bool(c["d"]), "(?i)^" + c["prefix"])
+        return _ask(q, c, c["script"])
+    q = Question("Name", c["d"])
+    if c["val"]:
+        q.set_validator(_validator)
+    if c["att"] is not None:
+        q.set_max_attempts(c["att"])
     return _ask(q, c, c["script"])
 
 
+def parse_dialogue(text, marker):
+    """The error output of an interactive ask must be: prompt (error line, prompt)* - the prompt being whatever the question
+    writes first (up to and including its input marker), the same every time.  -> (prompt count, [error lines]) or None."""
+    if text == "":
+        return 0, []
+    i = text.find(marker)
+    if i < 0:
+        return None
+    prompt = text[:i + len(marker)]
+    rest = text[len(prompt):]
+    errors = []
+    while rest:
+        j = rest.find("\n" + prompt)
+        if j < 0:
+            return None
+        err = rest[:j]
+        if err == "" or "\n" in err:
+            return None
+        errors.append(err)
+        rest = rest[j + 1 + len(prompt):]
+    return 1 + len(errors), errors
+
+
+def _counts(c, text):
+    marker = {0: "\n > ", 1: "] ", 2: "Name "}[c["k"]]
+    p = parse_dialogue(text, marker)
+    return (-1, -1) if p is None else (len(p[1]), p[0])
+
+
 def canon_impl(c, o):
+    def one(x):
+        end, nread, text = x[:3]
+        nerr, nprompt = _counts(c, text)
+        if c["k"] == 0:
+            return [end, nread, nerr, nprompt, S(text)]
+        return [end, nread, S(text)]
     if c["k"] == 0:
-        return [x[:-1] for x in o]
-    return o[:-1]
+        return [one(x) for x in o]
+    return one(o)
 
 
 def oracle(c, o):
@@ -134,24 +253,95 @@ def oracle(c, o):
     return oracle1(c, o)
 
 
+# ---- the property's own reading of an entry (independent of the implementation and of the model) ----
+WORDS = re.compile(r"^[a-zA-Z0-9_-]+(,[a-zA-Z0-9_-]+)*$")
+
+
+def spec_value(cs, v):
+    """One value: ("valid", the member it denotes) | ("invalid",) | ("undecided",).
+    valid: the text of a choice that occurs once, or the canonical decimal index of a choice when no choice has that text;
+    invalid: the text of a choice occurring twice (ambiguous), a text that is neither a choice nor integer-like, a canonical
+    integer outside the list; everything else (other spellings of integers: +1, 1_0, 07) is left to the model."""
+    n = cs.count(v)
+    if n == 1:
+        return ("valid", v)
+    if n > 1:
+        return ("invalid",)
+    if re.match(r"^(0|-?[1-9][0-9]*)$", v):       # the canonical decimal text of an integer
+        i = int(v)
+        return ("valid", cs[i]) if 0 <= i < len(cs) else ("invalid",)
+    if re.match(r"^\s*[+-]?[0-9][0-9_]*\s*$", v):
+        return ("undecided",)
+    return ("invalid",)
+
+
+def spec_entry(c, cs, line):
+    """A typed line of a choice question -> ("valid", expected answer) | ("invalid",) | ("undecided",)"""
+    t = line.strip()
+    if t == "":
+        if c["d"] is None:
+            return ("invalid",)
+        t = c["d"]
+    if not c["multi"]:
+        r = spec_value(cs, t)
+        return ("valid", [0, S(r[1])]) if r[0] == "valid" else r
+    parts = [p.strip(" ") for p in t.split(",")]          # blanks around the commas do not count
+    if any(" " in p for p in parts):
+        return ("undecided",)       # a blank INSIDE a value (the code drops it; whether 'Iron Man' may be typed in a list is not claimed)
+    if not WORDS.match(",".join(parts)):
+        return ("invalid",)
+    rs = [spec_value(cs, p) for p in parts]
+    # the first value that is not valid decides
+    for r in rs:
+        if r[0] != "valid":
+            return r
+    return ("valid", [1, [S(r[1]) for r in rs]])
+
+
+def spec_dialogue(c, cs):
+    """What the property dictates for the script: (end, lines read, error lines printed) or None when an entry is undecided
+    before the dialogue is over."""
+    left = c["att"]
+    bad = 0
+    for i, line in enumerate(c["script"]):
+        r = spec_entry(c, cs, line)
+        if r[0] == "undecided":
+            return None
+        if r[0] == "valid":
+            return ([0, r[1]], i + 1, bad)
+        bad += 1
+        if left is not None:
+            left -= 1
+            if left == 0:
+                # the last allowed attempt: the error is raised, not printed
+                return ("failed", i + 1, bad - 1)
+    return ("gave-up", len(c["script"]), bad)
+
+
 def oracle1(c, o):
-    if o[-1] != "":
+    end, nread, text, stdout = o
+    if stdout != "":
         return "question-wrote-to-standard-output"
-    end = o[0]
+    if end[0] == 3:
+        return "unexpected-exception:" + unS(end[1])
+    if not c["inter"]:
+        # any question on a non-interactive input: its default, nothing read, nothing written
+        if nread != 0:
+            return "non-interactive-question-read-input"
+        if text != "":
+            return "non-interactive-question-wrote"
+        if c["k"] == 0:
+            exp = [0, [2]] if c["d"] is None else [0, [0, S(c["d"])]]
+        elif c["k"] == 1:
+            exp = [0, c["d"]]
+        else:
+            exp = [0, [2]] if c["d"] is None else [0, [0, S(c["d"])]]
+        return None if end == exp else "non-interactive-question-not-default"
+    nerr, nprompt = _counts(c, text)
+    if nerr < 0:
+        return "error-output-is-not-prompt-then-error-lines-each-followed-by-the-prompt"
     if c["k"] == 0:
         cs = CHOICE_LISTS[c["cs"]]
-        end, nread, nerr, nprompt = o[:4]
-        if not c["inter"]:
-            if nread or nerr or nprompt:
-                return "non-interactive-question-read-or-wrote"
-            exp = [0, [2]] if c["d"] is None else [0, [0, S(c["d"])]]
-            return None if end == exp else "non-interactive-question-not-default"
-        # typing the exact text of a (unique) choice gives that choice at once
-        if not c["multi"] and c["script"]:
-            first = c["script"][0]
-            if first in cs and cs.count(first) == 1 and first == first.strip() and first != "":
-                if end != [0, [0, S(first)]] or nread != 1 or nerr != 0:
-                    return "typed-choice-text-not-accepted"
         if end[0] == 0:
             a = end[1]
             vals = [unS(a[1])] if a[0] == 0 else ([unS(x) for x in a[1]] if a[0] == 1 else None)
@@ -159,33 +349,98 @@ def oracle1(c, o):
                 return "answer-not-a-member-of-the-choices"
             if (a[0] == 1) != bool(c["multi"]):
                 return "answer-shape-does-not-match-multi-select"
-        # attempts: one line per round; an invalid entry prints one error unless it was the last allowed one
-        if end[0] == 1 and c["att"] is not None and nread != c["att"] and c["att"] > 0:
-            return "failed-after-wrong-number-of-attempts"
+        # the attempt budget, in both directions, and the accounting of invalid entries
         if end[0] == 1 and c["att"] is None:
             return "failed-although-attempts-unlimited"
+        if end[0] == 1 and nread != c["att"]:
+            return "failed-after-wrong-number-of-attempts"
         if end[0] == 2 and nread != len(c["script"]):
             return "gave-up-before-end-of-input"
+        # one prompt per round (a round = one line read, or the end of input met), one error line per invalid entry
+        # except the one that used up the budget (its error is raised)
+        rounds = nread + (1 if end[0] == 2 else 0)
+        if nprompt != rounds:
+            return "prompts-do-not-match-rounds"
         invalid_rounds = nread - (1 if end[0] == 0 else 0)
-        exp_err = invalid_rounds - (1 if end[0] == 1 else 0)
-        if nerr != max(0, exp_err):
+        if nerr != max(0, invalid_rounds - (1 if end[0] == 1 else 0)):
             return "errors-printed-do-not-match-invalid-entries"
-    else:
-        end, nread = o[:2]
-        if not c["inter"]:
-            return None if (end == [0, c["d"]] and nread == 0) else "non-interactive-confirmation"
+        sp = spec_dialogue(c, cs)
+        if sp is not None:
+            s_end, s_read, s_err = sp
+            if s_end == "failed":
+                if end[0] != 1:
+                    return "limit-used-up-by-invalid-entries-but-no-failure"
+            elif s_end == "gave-up":
+                if end[0] != 2:
+                    return "did-not-give-up-at-end-of-input"
+            elif end != s_end:
+                # an index and the value it denotes are interchangeable; a valid entry is answered at once
+                return "valid-entry-not-answered-with-the-member-it-denotes"
+            if nread != s_read:
+                return "lines-read-do-not-match-the-entries"
+            if nerr != s_err:
+                return "errors-printed-do-not-match-invalid-entries"
+        return None
+    if c["k"] == 1:
         if not c["script"]:
-            return None if end == [2] else "confirmation-at-end-of-input"
+            return None if (end == [2] and nprompt == 1 and nerr == 0) else "confirmation-at-end-of-input"
+        if nread != 1 or nprompt != 1 or nerr != 0:
+            return "confirmation-reads-one-line-after-one-prompt"
         t = c["script"][0].strip()
         exp = bool(c["d"]) if t == "" else t.lower().startswith(c["prefix"])
         if end != [0, int(exp)]:
             return "confirmation-answer"
+        return None
+    # the plain question: the typed text (or the default), the validator's verdict under the attempt budget
+    def value(line):
+        t = line.strip()
+        return c["d"] if t == "" else t
+    if not c["val"]:
+        if not c["script"]:
+            return None if (end == [2] and nread == 0 and nprompt == 1) else "question-at-end-of-input"
+        v = value(c["script"][0])
+        exp = [0, [2]] if v is None else [0, [0, S(v)]]
+        if end != exp or nread != 1 or nprompt != 1 or nerr != 0:
+            return "question-answer"
+        return None
+    left, bad = c["att"], 0
+    want = ("gave-up", len(c["script"]), None)
+    for i, line in enumerate(c["script"]):
+        v = value(line)
+        if v in PLAIN_ACCEPT:
+            want = ([0, [0, S(v)]], i + 1, bad)
+            break
+        bad += 1
+        if left is not None:
+            left -= 1
+            if left == 0:
+                want = ("failed", i + 1, bad - 1)
+                break
+    else:
+        want = ("gave-up", len(c["script"]), bad)
+    kind = {0: None, 1: "failed", 2: "gave-up"}[end[0]]
+    if (kind or end) != want[0] or nread != want[1] or nerr != want[2]:
+        return "validated-question-accounting"
+    if nprompt != nread + (1 if end[0] == 2 else 0):
+        return "prompts-do-not-match-rounds"
     return None
 
 
 def nontrivial_key(c, o):
-    if c["k"] == 0 and c["inter"] and (o[0][2] >= 1 or c["multi"]):
+    if c["k"] == 0 and c["inter"] and (_counts(c, o[0][2])[0] >= 1 or o[0][0][0] == 1 or c["multi"]):
         return [c[k] for k in ("cs", "multi", "d", "att", "script")] + [c.get("again")]
     if c["k"] == 1:
         return [c["inter"], c["d"], c["prefix"], c["script"]]
+    if c["k"] == 2:
+        return [2, c["inter"], c["d"], c["val"], c["att"], c["script"]]
     return None
+
+
+def shrink(c):
+    sc = c["script"]
+    for i in range(len(sc)):
+        yield dict(c, script=sc[:i] + sc[i + 1:])
+    if "again" in c:
+        d = dict(c)
+        del d["again"]
+        yield d
